@@ -82,6 +82,7 @@ static void coherent(World &w) {
 static void run(bool reopen_rw) {
     nixsym_declare_reach("compared");
     World w;
+    vrt_set_tz(3600);                    // the writer works at UTC+1 ...
     build_world(w);
     for (int s = 0; s < VH_STEPS; s++) {
         uint32_t op = nixsym_choice("op", N_OPS);
@@ -100,6 +101,7 @@ static void run(bool reopen_rw) {
     drop_handles(w);
     w.f.close();
     nixsym_assert(!w.f.isOpen(), "closed");
+    vrt_set_tz(-18000);                  // ... the reader at UTC-5: what a file says must not depend on where it is read
     File g = File::open(WORLD_FILE, reopen_rw ? FileMode::ReadWrite : FileMode::ReadOnly);
     std::string after = observe(g);
     nixsym_assert(before.size() == after.size(), "reopened tree has the same shape");
